@@ -161,9 +161,25 @@ def run(ctx: Ctx, tier: str) -> Result:
         getter = ext.replace("settrace", "gettrace")
         ok = False
         why = "argument is not an attribute saved from %s()" % getter
+        idx_ = None
+        if isinstance(arg, ast.Name):
+            # the saved hook read into a local first, possibly out of a pair `(sys hook, thread hook)` kept in one field
+            bs_ = [b for k_, b in t.local_bindings(fi, arg.id) if k_ == "assign"]
+            if len(bs_) == 1 and bs_[0][1] is not None and len(t.local_bindings(fi, arg.id)) == 1:
+                arg, idx_ = bs_[0][1], bs_[0][2]
         if isinstance(arg, ast.Attribute) and isinstance(arg.value, ast.Name) and arg.value.id == "self" and fi.cls:
-            stores = [(sf, v) for sf, v, _ in t.field_stores(fi.cls, arg.attr)
-                      if not (isinstance(v, ast.Constant) and v.value is None)]
+            def _is_none(v_):
+                return (isinstance(v_, ast.Constant) and v_.value is None) or (isinstance(v_, ast.Tuple) and v_.elts and all(_is_none(x_) for x_ in v_.elts))
+            stores = [(sf, v) for sf, v, _ in t.field_stores(fi.cls, arg.attr) if not _is_none(v)]
+            if idx_ is not None:
+                picked = []
+                for sf, v in stores:
+                    el_ = v.elts[idx_] if isinstance(v, ast.Tuple) and idx_ < len(v.elts) else None
+                    if isinstance(el_, ast.Name):
+                        lb_ = t.local_bindings(sf, el_.id)
+                        el_ = lb_[0][1][1] if len(lb_) == 1 and lb_[0][0] == "assign" and lb_[0][1][2] is None else None
+                    picked.append((sf, el_))
+                stores = [(sf, v) for sf, v in picked if v is not None] if all(v is not None for _, v in picked) else []
             if stores:
                 ok = True
                 for sf, v in stores:
@@ -314,8 +330,22 @@ def run(ctx: Ctx, tier: str) -> Result:
         res.ok("C14.E", {"event.set() present, no join": True})
     tgt = p.func("deep.utils.RepeatedTimer._target")
     waits = [n for n in t.nodes_in(tgt, ast.While)]
-    if waits and any(isinstance(c, ast.Call) and isinstance(c.func, ast.Attribute) and c.func.attr == "wait"
-                     for w in waits for c in ast.walk(w.test)):
+    def _is_wait(e):
+        return isinstance(e, ast.Call) and isinstance(e.func, ast.Attribute) and e.func.attr == "wait"
+
+    def _exits_on_event(w):
+        # `while not event.wait(t): ...`, or `while True: if event.wait(t): break ...`
+        if isinstance(w.test, ast.UnaryOp) and isinstance(w.test.op, ast.Not) and _is_wait(w.test.operand):
+            return True
+        if isinstance(w.test, ast.Constant) and w.test.value is True:
+            for st_ in w.body:
+                if isinstance(st_, ast.If) and _is_wait(st_.test) and st_.body and isinstance(st_.body[-1], (ast.Break, ast.Return)):
+                    return True
+                if isinstance(st_, ast.If) and isinstance(st_.test, ast.UnaryOp) and isinstance(st_.test.op, ast.Not) and _is_wait(st_.test.operand) \
+                        and st_.orelse and isinstance(st_.orelse[-1], (ast.Break, ast.Return)):
+                    return True
+        return False
+    if waits and any(_exits_on_event(w) for w in waits):
         res.ok("C14.E", {"timer loop exits on the stop event": tgt.loc(waits[0])})
     else:
         res.fail(Finding("C14.E", tgt.qname, "<while not event.wait()>", tgt.loc(), "timer loop does not test the stop event"))
